@@ -192,6 +192,9 @@ def build(cfg, values=None):
                 M_, rho_, V_, ainf_, q_ = ctx.V('Mach'), ctx.V('rho_air'), ctx.V('V'), ctx.V('speed_sound'), ctx.V('sqrt_M2m1')
                 if values is not None:
                     M_, q_ = _S(Fraction(5, 3)), _S(Fraction(4, 3))
+                if cfg.get('after_explicit_definition'):
+                    # the bay was first evaluated with explicitly given coefficients, then re-defined through Mach number etc.
+                    (bay.calc_kA if variant == 'bay-kA' else bay.calc_cA)(silent=True)
                 bay.beta = bay.gamma = bay.aeromu = None
                 bay.Mach, bay.rho_air, bay.V, bay.speed_sound = M_, rho_, V_, ainf_
                 beta_ = rho_ * V_ * V_ / q_
@@ -299,6 +302,10 @@ def real_exception(cfg):
             bay.add_panel(0, 0.5)
             bay.flow = cfg['flow']
             if cfg.get('mach_route'):
+                if cfg.get('after_explicit_definition'):
+                    bay.beta, bay.aeromu = 1e4, 0.1
+                    (bay.calc_kA if cfg['variant'] == 'bay-kA' else bay.calc_cA)(silent=True)
+                    bay.beta = bay.aeromu = None
                 bay.Mach, bay.rho_air, bay.V, bay.speed_sound = 2., 1.2, 600., 340.
             else:
                 bay.beta, bay.aeromu = 1e4, 0.1
@@ -333,6 +340,8 @@ def configs(tier, seed):
         out.append({'model': model, 'm': 1, 'n': 4, 'variant': 'bay-kA', 'flow': 'y', 'group': 'bay-kA-explicit-coefficients-flow-y:%s' % model})
         out.append({'model': model, 'm': 4, 'n': 1, 'variant': 'bay-kA', 'flow': 'x', 'mach_route': True, 'group': 'bay-kA-mach-route:%s' % model})
         out.append({'model': model, 'm': 3, 'n': 1, 'variant': 'bay-cA', 'flow': 'x', 'mach_route': True, 'group': 'bay-cA-mach-route:%s' % model})
+        out.append({'model': model, 'm': 4, 'n': 1, 'variant': 'bay-kA', 'flow': 'x', 'mach_route': True, 'after_explicit_definition': True, 'group': 'bay-kA-mach-route-after-explicit-coefficients:%s' % model})
+        out.append({'model': model, 'm': 3, 'n': 1, 'variant': 'bay-cA', 'flow': 'x', 'mach_route': True, 'after_explicit_definition': True, 'group': 'bay-cA-mach-route-after-explicit-coefficients:%s' % model})
         out.append({'model': model, 'm': 3, 'n': 1, 'variant': 'cA-default', 'flow': 'x', 'group': 'cA-default-coefficient:%s' % model})
     out[0]['canary'] = True
     out[-2]['canary'] = True
